@@ -35,6 +35,12 @@ def _common_random(rng, n_levels, n_leaves):
         'cell_id_style': str(rng.choice(
             ['plain', 'numeric', 'unicode', 'mixed'])),
         'noise': float(rng.choice([0.3, 1.0, 3.0])),
+        # memory budget of the CSC->CSR conversion (tiny = several passes)
+        'max_gb': float(rng.choice([1e-9, 1e-6, 1.0, 1.0])),
+        # occasionally hundreds of foreign genes in front of the markers
+        'n_extra_genes': (int(rng.integers(260, 400))
+                          if rng.random() < 0.08 else None),
+        'extra_first': bool(rng.random() < 0.5),
     }
 
 
